@@ -203,7 +203,8 @@ def api_run(ctx, exe, lines, nproc=None, timeout=2400, variant="o1", keyhint=Non
             out.update(o2)
         detail = culprit[1] if culprit else (errs[0][1][-1500:] if errs else "")
         ctx.violation(dict(kind="api", variant=variant, line=byid[culprit[0]] if culprit else None, detail=detail),
-                      what="c08_api (%s build) crashed or trapped on a dictionary recipe: %s" % (variant, detail[-400:].replace("\n", " ")),
+                      what="c08_api (%s build) crashed or trapped on a dictionary recipe (line %s, exit codes %s): %s" % (
+                          variant, culprit[0] if culprit else "?", sorted(set(e[0] for e in errs)), detail[-400:].replace("\n", " ")),
                       key=keyhint or ("C08-api-sanitizer" if variant == "asan" else "C08-api-crash"))
     return out
 
